@@ -35,6 +35,8 @@ type spec struct {
 	last []byte // previous valid encoding of this type ("another valid encoding" suffix)
 	rng  *rand.Rand
 	n    int // cases judged
+
+	tinyTails int // 64 KiB tails spent on encodings of at most four octets
 }
 
 func newSpec(name string, dec func(pre, buf []byte) (int, error, []fv)) *spec {
@@ -73,6 +75,9 @@ type variant struct {
 	suffix []byte
 }
 
+// countTiny bounds the number of 64 KiB tails spent on the smallest encodings of one type.
+func (sp *spec) countTiny() bool { sp.tinyTails++; return true }
+
 func (sp *spec) variants(enc []byte) []variant {
 	rng := sp.rng
 	other := sp.last
@@ -91,7 +96,7 @@ func (sp *spec) variants(enc []byte) []variant {
 	}
 	// a long tail: more than a 16-bit count can describe follows the encoding (every 64th case; the
 	// decoder must still take exactly its own bytes)
-	if sp.n%64 == 5 {
+	if sp.n%64 == 5 || (len(enc) <= 4 && sp.n%5 == 1 && sp.tinyTails < 40 && sp.countTiny()) { // and after the smallest encodings (an empty block, an empty string) more often
 		vs = append(vs, variant{"64k-zeros", "suffix", nil, fill(65536+sp.n%7, 0x00)}, variant{"64k-ones", "suffix", nil, fill(65537, 0xFF)}, variant{"70k-pattern", "suffix", nil, rbytes(rng, 70000)})
 	}
 	// deterministic single-byte boundary suffixes, cycled so that every type sees each
